@@ -465,6 +465,42 @@ def check_exist(prog: Program, res: Result) -> None:
     res.floor(R, 9)
 
 
+def check_offset(prog: Program, res: Result) -> None:
+    """FindInstancePeaksGroundTruth.forward walks a batch-FLATTENED list of matched instances with a running offset: frame i
+    owns the next counts[i] entries (counts = bincount of the matched frame indices).  The offset advances by exactly that
+    count - a count clamped to the number of output slots leaves the surplus entries of frame i to be read as frame i+1's."""
+    R = "C12-offset"
+    fi = prog.cls("sleap_nn.inference.topdown:FindInstancePeaksGroundTruth").methods.get("forward")
+    if fi is None:
+        raise AnalysisError("FindInstancePeaksGroundTruth.forward vanished")
+    res.touch(fi)
+    fn = fi.node
+    n = 0
+    for aug in walk_function(fn):
+        if not (isinstance(aug, ast.AugAssign) and isinstance(aug.op, ast.Add) and isinstance(aug.target, ast.Name) and astq.enclosing_loops(aug)):
+            continue
+        off = aug.target.id
+        lp = astq.enclosing_loops(aug)[-1]
+        used = [sl for sl in ast.walk(lp) if isinstance(sl, ast.Subscript) and isinstance(sl.slice, ast.Slice) and sl.slice.lower is not None and norm(sl.slice.lower) == off]
+        if not used:
+            continue
+        n += 1
+        lv = sorted(astq.target_names(lp.target))
+        step = astq.expand_at(fn, aug.value, aug, keep=lv)
+        ok = isinstance(step, ast.Subscript) and norm(step.slice) in lv
+        src = (astq.expand_at(fn, step.value, lp) if isinstance(step.value, ast.Name) else step.value) if ok else None
+        ok = ok and isinstance(src, ast.Call) and norm(src.func).split(".")[-1] == "bincount"
+        res.ob(R, ok, fi.qualname, f"`{off}` advances by the frame's own match count",
+               f"the offset `{off}` into the flattened match list advances by `{short(step, 50)}`, not by the frame's bincount: when a frame has more matches than that, "
+               "the following frames of the batch read its left-over entries", f"{fi.module.relpath}:{aug.lineno}")
+        for sl in used:
+            up = astq.expand_at(fn, sl.slice.upper, enclosing_stmt(sl), keep=lv + [off]) if sl.slice.upper is not None else None
+            ok2 = isinstance(up, ast.BinOp) and isinstance(up.op, ast.Add) and off in (norm(up.left), norm(up.right)) and norm(step) in (norm(up.left), norm(up.right))
+            res.ob(R, ok2, fi.qualname, "the frame's slice is [offset : offset + count]", f"the frame's slice `{short(sl, 50)}` is not [offset : offset + its match count]",
+                   f"{fi.module.relpath}:{sl.lineno}")
+    res.floor(R, 1)
+
+
 def check_no_batch_wide_guard(prog: Program, res: Result) -> None:
     """A per-frame correction (dividing by the frame's eff_scale, adding the frame's bbox offset) must not be switched on
     or off by a reduction over the WHOLE batch: `if (eff_scale != 1).all(): x = x / eff_scale` leaves a rescaled frame
@@ -493,6 +529,10 @@ def check_no_batch_wide_guard(prog: Program, res: Result) -> None:
 
 
 def check(prog: Program, res: Result) -> None:
+    from . import _state as _st2
+    _st2.check_no_stale_loop_var(prog, res, "C12-state", ["sleap_nn.inference"])
+    from . import c14
+    res.borrow(c14.check_state, "C12-state", prog)
     check_align(prog, res)
     check_split(prog, res)
     check_topk(prog, res)
@@ -506,8 +546,9 @@ def check(prog: Program, res: Result) -> None:
     res.borrow(c07.check_valid, "C12-refine", prog)
     res.borrow(c06.check_refine, "C12-refine", prog)
     check_no_batch_wide_guard(prog, res)
+    check_offset(prog, res)
     from . import _batch
-    _batch.check_per_sample_lists(prog, res, "C12-batch", ["sleap_nn.inference.paf_grouping:score_paf_lines_batch", "sleap_nn.inference.paf_grouping:match_candidates_batch", "sleap_nn.inference.paf_grouping:group_instances_batch"], floor=9)
+    _batch.check_per_sample_lists(prog, res, "C12-batch", ["sleap_nn.inference.bottomup:BottomUpInferenceModel._generate_cms_peaks", "sleap_nn.inference.paf_grouping:score_paf_lines_batch", "sleap_nn.inference.paf_grouping:match_candidates_batch", "sleap_nn.inference.paf_grouping:group_instances_batch"], floor=9)
     res.assumptions.append("numerical independence of one sample's output from its batch-mates (network, batched kernels) is not decided")
 
 
